@@ -1,7 +1,7 @@
 #!/bin/bash
 # tools/seedtest.sh <seed_dir> <ID> [tier] : apply a seeded change to /repo, run the check, undo it straight afterwards
 set -u
-S="$1"; ID="$2"; TIER="${3:-quick}"
+S="$(realpath "$1")"; ID="$2"; TIER="${3:-quick}"
 cd /verif
 git -C /repo diff --quiet || { echo "/repo has uncommitted changes"; exit 3; }
 git -C /repo apply "$S/patch.diff" || { echo "patch does not apply"; exit 3; }
